@@ -195,6 +195,7 @@ fn run_in(case: &C11Case, exec: &mut Exec) -> Result<CaseInfo, Fail> {
     let mut writers = vec![];
     if let Some(l) = &case.lag {
         writers.push(WriterSpec {
+            remove_lag: None,
             start_delay_us: 30_000,
             frames: (0..l.burst)
                 .map(|i| (spec("burst", p.ctxs[i as usize % 3], None), 0))
@@ -202,6 +203,7 @@ fn run_in(case: &C11Case, exec: &mut Exec) -> Result<CaseInfo, Fail> {
         });
     } else if !case.live.is_empty() {
         writers.push(WriterSpec {
+            remove_lag: None,
             start_delay_us: if case.live_delay_us == 0 { 25_000 } else { case.live_delay_us as u64 },
             frames: case
                 .live
